@@ -234,7 +234,7 @@ func ruleDupSortCodec(c *Check, rConst, rRound string) {
 
 // C20-R4: uniqueness and order check while encoding a whole DBI.
 func ruleDupSortUnique(c *Check, rule string) {
-	name := "syncer.dupSortHackEncode$1"
+	name := "syncer.dupSortHackEncode$map"
 	fn, paths := c.walkFn(rule, name, WalkConfig{})
 	if paths == nil {
 		return
